@@ -27,6 +27,12 @@ CLAIMED = {
  "C09": dict(technique="effect summaries vs declared constexpr flags; guard analysis of the const_cast pass-through; interprocedural must-kill-before-read audit of all members that persist between calls; unordered-iteration / heap-comparator totality rule; parameter-capture rule; who-may-write purity of the neighbour memo",
              text="Decides, for all 7 grid instantiations and all paths, the shape-level sources of impurity of update_routes: undeclared elevation writes, const_cast pass-through, every persistent member read before being reset (with a reasoned exception table), history-dependent iteration order feeding a heap, operator parameters frozen by cached helpers, impure neighbour memo. Bit-equality of floating-point results as such is not decided.",
              ref="§5 C09"),
+ "C17": dict(technique="abstract interpretation of the status-composition code over an abstract array of first/middle/last index classes, exhaustive over all border-status combinations; truth-table interpretation of the symmetry check; guard-order rule and bounded exhaustive interpretation of the filtered iterator",
+             text="Decides the documented status composition (borders, corner precedence, overrides, rejections) for every border combination and every shape >= 3 per axis by exhaustive abstract interpretation of set_nodes_status / the boundary-status constructors, the default base-level seeding and the filter predicate; the iterator is decided structurally plus a bounded (size <= 5) exhaustive interpretation. The xtensor view library is modelled, not analysed.",
+             ref="§5 C17"),
+ "C20": dict(technique="exhaustive abstract interpretation (exact flag domain) of the sequence builder, move constructor and flow_graph constructor checks for every operator sequence up to length 3/4 against a declarative specification; documented flag table vs constexpr flags; declared vs actual effects via effect summaries",
+             text="Decides acceptance/rejection, reported direction, single-column storage, snapshot keys and pass-through for every sequence of <= 3 (quick) / <= 4 (thorough) operators by interpreting the library's own validation code, plus agreement of declared flags with documentation and with the actual effects of each implementation.",
+             ref="§5 C20"),
 }
 NA = {}
 DEFAULT_NA = "check not implemented yet (framework under construction)"
